@@ -125,7 +125,10 @@ void harness(void)
   {
     int sg;
     for (sg = 0; sg < SegCount; sg++) { StartAdr[sg] = 0; StopAdr[sg] = 15; }
-    LineLen = 16; Relocate = 0; RelAdr = False; ForceSegment = SegNone; IntelMode = 0; MultiMode = 0; MinMoto = 1; Rec5 = True; SepMoto = False; AVRLen = 3;
+#ifndef P2HEX_LINELEN
+#define P2HEX_LINELEN 16
+#endif
+    LineLen = P2HEX_LINELEN; Relocate = 0; RelAdr = False; ForceSegment = SegNone; IntelMode = 0; MultiMode = 0; MinMoto = 1; Rec5 = True; SepMoto = False; AVRLen = 3;
     DestFormat = HEXFMT; FormatOccured = 0; MaxMoto = 0; MaxIntel = 0; EntryAdrPresent = False; CFormat[0] = 0; strcpy(TargName, "t");
     TargFile = (FILE*)(void*)&targ;
     ProcessFile(srcname, 0);
